@@ -182,6 +182,24 @@ impl Lift for SubWordValue {
                 _ => return None,
             };
 
+            // Sub-words nest with offsets relative to the sub-word they are taken from, so the
+            // region also has to end inside the word once the offsets of all the sub-words
+            // around it are accounted for
+            let mut end = offset + length;
+            let mut enclosing = &value;
+            while let RSVD::SubWord {
+                offset: outer_offset,
+                value: outer_value,
+                ..
+            } = enclosing.data()
+            {
+                end = end.saturating_add(*outer_offset);
+                enclosing = outer_value;
+            }
+            if end > WORD_SIZE_BITS {
+                return None;
+            }
+
             // If we find a word, we can easily construct the return data
             let payload = SVD::SubWord {
                 value,
